@@ -594,10 +594,14 @@ Lemma pstep_propagate_task fuel : forall s t, Inv s -> pstep s (propagate_task f
 Proof.
   induction fuel as [|fuel IH]; intros s t I; cbn [propagate_task].
   - destruct (negb (is_prio_task s t)); [now apply pstep_refl|].
-    destruct (task_is_runnable s t); [apply pstep_core_eq; auto|].
-    destruct (twaiting (gett s t)); now apply pstep_refl.
+    destruct (task_is_runnable s t); destruct (twaiting (gett _ t));
+      try (now apply pstep_refl); apply pstep_core_eq; auto.
   - destruct (negb (is_prio_task s t)); [now apply pstep_refl|].
-    destruct (task_is_runnable s t); [apply pstep_core_eq; auto|].
+    set (s0 := if task_is_runnable s t then task_reschedule s t else s).
+    assert (P0 : pstep s s0).
+    { unfold s0. destruct (task_is_runnable s t); [apply pstep_core_eq; auto|now apply pstep_refl]. }
+    clearbody s0. eapply pstep_trans; [exact P0|]. apply (fun P => ls_inv (proj1 P)) in P0.
+    clear I s. rename s0 into s, P0 into I.
     destruct (twaiting (gett s t)) as [l|]; [|now apply pstep_refl].
     set (s1 := match lowner (getl s l) with Some o => propagate_task fuel s o | None => s end).
     assert (P1 : pstep s s1).
